@@ -126,10 +126,11 @@ PROPS = {
     },
     'C04': {
         'contracts': [E + 'eof', E + 'timeout', E + 'errored', E + 'existing_data', E + 'expect_loop', SS + '__init__', SR + '__init__',
-                      SB + 'expect_list', SB + 'expect_loop', SB + 'expect', SB + 'expect_exact', SB + 'read', SB + 'readline'] + READS,
+                      SB + 'expect_list', SB + 'expect_loop', SB + 'expect', SB + 'expect_exact', SB + 'read', SB + 'readline',
+                      ('pexpect.pty_spawn.spawn.__str__', 'ctx:str')] + READS,
         'assumptions': [
             'spawn.read_nonblocking is used through its interface contract (data | EOF | TIMEOUT | other OSError); that a transport reports EOF again without blocking after the first EOF is not under contract here (pty: blocking isalive() inside ptyprocess, see DESIGN.md section 7 #10)',
-            'str(spawn) / str(searcher) used to build the exception message are assumed total here (spawn.__str__ is not yet under contract)',
+            'str(spawn) used to build the exception message is proved total (pty spawn.__str__; the other classes inherit object.__str__); str(searcher) and the __str__ of user-supplied log files are assumed total',
             'expect(), expect_exact(), read(size <= 0) and readline() are under contract (the delimiter is the default, EOF); read(size > 0), readlines(), __iter__ delegate to the entry points above and are not separately under contract in this check',
         ],
     },
@@ -174,7 +175,8 @@ PROPS = {
     },
     'C11': {
         'contracts': [SB + '_log'] + _transport_contracts(['send', 'sendline', 'write', 'writelines']) +
-                     [PTYC + 'sendcontrol', PTYC + 'sendeof', PTYC + 'sendintr'] + READS + ['pexpect._async_w_await.PatternWaiter.data_received'],
+                     [PTYC + 'sendcontrol', PTYC + 'sendeof', PTYC + 'sendintr'] + READS + ['pexpect._async_w_await.PatternWaiter.data_received',
+                      'pexpect.pty_spawn.spawn.__interact_copy'],
         'assumptions': [
             'log file objects implement write(text) / flush(); two log attributes do not alias the same file object',
             'interact() is not yet under contract in this check',
